@@ -94,6 +94,7 @@ class World:
         self._imports = {}
         self.astchecks = []  # (name, props, fn(world)->(ok, detail))
         self.finalizers = []
+        self.always_standin = {}  # property -> [(function, why)]: bounded scenario harnesses run on every check (parts no contract reaches)
         self.load_spec()
 
     # ---- registration API (used by /verif/contracts/*.py) ---------------------------
